@@ -18,6 +18,8 @@ attributes the death to that probe and restarts the worker after it.
 Two kinds of probes:
   {"kind": "api", "entry": name, "a": {...}}     call the real Python API of hydrodiy (extension modules
                                                   of the ASan build) — the outcome oracle
+  an array spec of an api probe may carry "ro": "flag" | "bytes" | "memmap": the array is handed over READ-ONLY (see
+  `readonly`); a call that modifies it is reported (`readonly-write`), a write into a read-only mapping kills the worker
   {"kind": "kern", "fn": "c_xxx", "args": [...]} call a kernel of the ASan libhykern.so through ctypes with
                                                   every buffer malloc'ed at a prescribed extent — the
                                                   tightness probes; reports are mapped back to the buffer
@@ -46,13 +48,68 @@ def deep(v):
     return fl(v)
 
 
+# read-only inputs: arrays the caller hands over for READING only (`"ro"` in the array spec). Each is tracked with a
+# snapshot of its bytes; after the call `readonly_reports` says which ones were modified — a kernel that writes into
+# (or sorts) memory it was only given to read. A write into a read-only mapping is a SIGSEGV: the worker dies and the
+# death is attributed to the probe by the parent.
+RO = {"dir": None, "track": [], "n": 0}
+
+
+def readonly(a, kind, name, np):
+    """kind: "flag" (`writeable=False` on ordinary memory), "bytes" (`np.frombuffer` over an immutable bytes object),
+    "memmap" (`np.memmap(mode="r")` of a scratch file: pages mapped PROT_READ)"""
+    a = np.ascontiguousarray(a)
+    snap = a.tobytes()
+    keep, path = None, None
+    if kind == "memmap" and a.size > 0 and RO["dir"]:
+        os.makedirs(RO["dir"], exist_ok=True)
+        path = os.path.join(RO["dir"], f"ro{os.getpid()}_{RO['n']}.bin")
+        RO["n"] += 1
+        a.tofile(path)
+        r = np.memmap(path, dtype=a.dtype, mode="r", shape=a.shape)
+    elif kind == "bytes" and a.size > 0:
+        keep = a.tobytes()
+        r = np.frombuffer(keep, dtype=a.dtype).reshape(a.shape)
+    else:
+        r = a.copy()
+        r.setflags(write=False)
+    RO["track"].append({"name": name or "?", "kind": kind, "arr": r, "snap": snap, "keep": keep, "path": path})
+    return r
+
+
+def readonly_reports(np):
+    """-> reports for the read-only arrays of the probe that just ran whose content changed; forgets them"""
+    out = []
+    for t in RO["track"]:
+        try:
+            now = np.asarray(t["arr"]).tobytes()
+        except Exception:       # noqa
+            now = t["snap"]
+        if now != t["snap"]:
+            n = sum(1 for x, y in zip(now, t["snap"]) if x != y)
+            out.append({"kind": "readonly-write", "access": "", "func": "?", "where": "?", "line": "?", "buf": t["name"],
+                        "msg": f"the read-only array passed as `{t['name']}` ({t['kind']}) was modified by the call "
+                               f"({n} bytes differ)"})
+        if t["path"]:
+            try:
+                del t["arr"]
+                os.unlink(t["path"])
+            except Exception:       # noqa
+                pass
+    RO["track"] = []
+    return out
+
+
 def arr(spec, np):
-    """{"d": dtype, "v": nested list (floats may be "nan"/"inf"/"-inf"), "shape": optional}"""
+    """{"d": dtype, "v": nested list (floats may be "nan"/"inf"/"-inf"), "shape": optional, "ro": optional kind of
+    read-only array (see `readonly`), "name": argument name for the report}"""
     if spec is None:
         return None
     a = np.array(deep(spec["v"]), dtype=spec.get("d", "float64"))
     if "shape" in spec:
         a = a.reshape(spec["shape"])
+    if spec.get("ro"):
+        a = readonly(a, spec["ro"], spec.get("name"), np)
     return a
 
 
@@ -768,6 +825,7 @@ def main():
             logbase = part[len("log_path="):]
     logfile = f"{logbase}.{os.getpid()}" if logbase else None
     st = open(status_file, "a")
+    RO["dir"] = os.path.join(os.path.dirname(os.path.abspath(status_file)), "readonly")
 
     def say(line):
         st.write(line + "\n")
@@ -795,6 +853,7 @@ def main():
                     say("L " + json.dumps(loaded))
                     install_shims(mods, lambda rec: say(f"C {cur[0]} " + json.dumps(rec)))
                 cur[0] = i
+                RO["track"] = []
                 r = entries[p["entry"]](p["a"])
                 out["ret"] = "ok"
                 out["val"] = brief(r)
@@ -820,6 +879,9 @@ def main():
         if text and not out["reports"]:
             out["reports"] = [{"kind": "unparsed", "access": "", "func": "?", "where": "?", "line": "?",
                                "msg": text[:200]}]
+        if RO["track"]:
+            import numpy as _np
+            out["reports"] += readonly_reports(_np)
         say(f"E {i} " + json.dumps(out))
     say("Q")
     st.close()
